@@ -17,3 +17,19 @@ func (g *Group) VerifSetHeadSizeLimit(limit int64) {
 	g.headSizeLimit = limit
 	g.mtx.Unlock()
 }
+
+// checkTotalSizeLimit is the second thing the group's ticker runs (after checkHeadSizeLimit); the
+// total size limit can only be chosen when the group is opened.
+func (g *Group) VerifCheckTotalSizeLimit() { g.checkTotalSizeLimit() }
+
+func (g *Group) VerifSetTotalSizeLimit(limit int64) {
+	g.mtx.Lock()
+	g.totalSizeLimit = limit
+	g.mtx.Unlock()
+}
+
+func VerifMaxFilesToRemove() int { return maxFilesToRemove }
+
+// what AutoFile's closeFileRoutine does every autoFileClosePeriod (and on SIGHUP): the head file is
+// closed and transparently re-opened by the next Write/Sync/Size.
+func (g *Group) VerifCloseHeadFile() error { return g.Head.closeFile() }
